@@ -93,3 +93,19 @@ def true_pair_distances(pos, vects, ii, jj):
 def rotation_between(ref_vects, new_vects):
     """The linear map R with  ref_vects . R^T = new_vects  (x_new = R x_old)."""
     return np.linalg.solve(np.asarray(ref_vects, float), np.asarray(new_vects, float)).T
+
+
+def is_proper_rotation(T, tol):
+    """T . T^T = 1 and det T = +1, every entry within ``tol`` (dimensionless; no hidden relative allowance)."""
+    T = np.asarray(T, float)
+    if T.shape != (3, 3) or not np.all(np.isfinite(T)):
+        return False
+    return bool(np.abs(T @ T.T - np.eye(3)).max() <= tol and abs(np.linalg.det(T) - 1.0) <= tol)
+
+
+def same_cell(va, oa, vb, ob):
+    """Largest difference between two cells in units of the largest cell-vector length of the second
+    (dimensionless, so the same bound serves every length scale)."""
+    vb = np.asarray(vb, float)
+    L = np.linalg.norm(vb, axis=1).max()
+    return float(max(np.abs(np.asarray(va, float) - vb).max(), np.abs(np.asarray(oa, float) - np.asarray(ob, float)).max()) / L)
